@@ -5,13 +5,16 @@ pat="${1:-C}"
 for d in seeded/${pat}*/; do
   id=$(basename "$d")
   if grep -q '"neutralised_by_fix"' "$d/meta.json" 2>/dev/null; then echo "$id NEUTRALISED-BY-FIX (see meta.json)"; continue; fi
+  if grep -q '"not_caught"' "$d/meta.json" 2>/dev/null; then echo "$id NOT-CAUGHT-DOCUMENTED (see meta.json)"; continue; fi
   prop=${id%%-*}
+  by=$(python3 -c "import json,sys; print(json.load(open('$d/meta.json')).get('caught_by',''))" 2>/dev/null)
   k=${id#*-}; suffix=""
   case "$k" in *r2) suffix=r2; k=${k%r2};; *r3) suffix=r3; k=${k%r3};; esac
-  all=$(tools/seed_eval.py "$prop" "$k" ${suffix:+--suffix $suffix} --skip-confirm --checks "$prop" 2>&1)
-  res=$(echo "$all" | grep -E "^$prop exit=" | head -1)
+  chk="${by:-$prop}"
+  all=$(tools/seed_eval.py "$prop" "$k" ${suffix:+--suffix $suffix} --skip-confirm --checks "$chk" 2>&1)
+  res=$(echo "$all" | grep -E "^$chk exit=" | head -1)
   case "$res" in
-    *"exit=1"*) echo "$id CAUGHT";;
+    *"exit=1"*) echo "$id CAUGHT${by:+ (by $by)}";;
     "") echo "$id PATCH-DOES-NOT-APPLY (re-base it on the current tree) :: $(echo "$all" | tail -1 | cut -c1-120)";;
     *) echo "$id MISSED :: $res";;
   esac
